@@ -21,7 +21,7 @@ From BB Require Import BN Brute SpaceFacts TrapFacts PercolateFacts AttractorFac
   Strict PetriNet Control Meta FilterFacts PetriNetFacts TrappistFacts DiagramStruct DiagramSem1 DiagramCache
   DiagramDepth DiagramComplete Termination ControlFacts MetaFacts Candidates StrictFacts MinExpandFacts CandidatesFacts SymbolicTest SymbolicTestFacts Signed ReductionFacts ControlFacts2 Main Blocks BlocksFacts ObsFacts OwnerFacts CandidatesTerm
   PartialOwner BlockMath BlockComplete ASeeds ASeedsFacts LogChecks SkipRule SkipRuleFacts Names NamesFacts Perm PermFacts SCC SCCFacts SCCStruct ControlFacts3 SCCTerm FilterSym Main2 StrategyFacts ControlFacts4 SkipRuleFacts2 SCCComplete SCCAttr BlockComplete2 ControlFacts5 Iso SkipSem ControlFacts6.
-From BB Require Import PyLib PyLibSd PyLibCore PyLibSd2 PyLibScc PySrcSdBase PySrcSdScc PySrcSdSccFacts Control PyLibControl PySrcSdSccMain PySrcSdSccMainFacts PyLibBlocks PySrcSdBlocks PySrcSdBlocksFacts PySrcApi PySrcEndToEndScc PySrcEndToEndBlocks.
+From BB Require Import PyLib PyLibSd PyLibCore PyLibSd2 PyLibScc PySrcSdBase PySrcSdScc PySrcSdSccFacts Control PyLibControl PySrcSdSccMain PySrcSdSccMainFacts PyLibBlocks PySrcSdBlocks PySrcSdBlocksFacts PySrcApi PySrcEndToEndScc PySrcEndToEndBlocks Filter PySrcFilter PySrcFilterFacts.
 
 (* translator tie: the function GENERATED from the current text of expand_source_SCCs.expand_source_SCCs (PySrcSdSccMain.v: root sources, BFS over the levels, recursion through the default expander into the sub-diagrams of the source SCCs, attachment by the generated attach_scc_subdiagram) does what the model's SCC.scc_main does on every diagram satisfying SCCTerm.SI, for every fuel, tape and nesting depth *)
 Theorem C01_source_expand_source_SCCs : forall (fuel : nat) (N : net) (cfg : config) (check_maa : bool) (d : sd) (tape : tape_t) (rec : nat), 1 <= max_motifs cfg -> SI N d -> let '(d', r, tape') := scc_main fuel N cfg check_maa d tape in scc_outcome (py_expand_source_SCCs fuel N cfg d tape check_maa rec) d' r tape'.
@@ -47,6 +47,10 @@ Proof. exact py_api_build_one_to_one. Qed.
 (* C01 ('no attractor is lost') for the SOURCE TEXT of the source-SCC strategy: when the generated public method expand_scc (PySrcApi.v, a call of the generated expand_source_SCCs) returns True on a fresh diagram without the motif-avoidance shortcut, every attractor is reported by an expanded node whose seeds are one-to-one with its own attractors *)
 Theorem C01_source_text_expand_scc_every_attractor_reported : forall (fuel : nat) (N : net) (cfg : config) (tape : list (option bool)) (d' : sd) (t : list (option bool)) (seeds : nat -> list state), 1 <= max_motifs cfg -> py_api_expand_scc fuel N cfg (init N) tape false = SRet d' (true, t) -> exp_seeds_ok N d' seeds -> forall A : state -> Prop, attractor N A -> exists (i : nat) (s : state), i < size d' /\ n_exp (get d' i) = true /\ In s (seeds i) /\ A s.
 Proof. exact py_api_expand_scc_every_attractor_reported. Qed.
+
+(* translator tie for the candidate filter: the function GENERATED from the current text of attractor_symbolic.compute_attractors_symbolic (PySrcFilter.v: preamble / postamble compared with reference texts, the loop -- candidate order, the unchecked-last-candidate shortcut, avoid.minus before the test, avoid.union after a success, the appends -- translated statement by statement) is the model's compute_attractors_filter, to which filter_exact applies *)
+Theorem C01_source_compute_attractors_symbolic : forall (N : net) (seeds_only : bool) (motifs : list space) (cands : list state), py_compute_attractors_symbolic N seeds_only motifs cands = Some (compute_attractors_filter N seeds_only motifs cands).
+Proof. exact py_compute_attractors_symbolic_spec. Qed.
 
 (* given covering candidates, the filter returns exactly one seed per attractor of the node, and the sets are the attractors *)
 Theorem C01_filter_exact : forall (N : net) (S : space) (motifs : list space) (cands seeds : list state) (sets : list (list state)), trap_space N S -> (forall M : space, In M motifs -> trap_space N M /\ subspace M S = true) -> NoDup cands -> (forall c : state, In c cands -> in_space c S = true) -> covers N S motifs cands -> compute_attractors_filter N false motifs cands = (seeds, Some sets) -> one_to_one N S motifs seeds /\ length sets = length seeds /\ (forall (i : nat) (s : state) (X : list state), nth_error seeds i = Some s -> nth_error sets i = Some X -> forall t : state, In t X <-> reach N s t).
@@ -206,6 +210,7 @@ Print Assumptions C01_source_expand_source_blocks_fresh.
 Print Assumptions C01_source_public_expand_block.
 Print Assumptions C01_source_text_build_one_to_one.
 Print Assumptions C01_source_text_expand_scc_every_attractor_reported.
+Print Assumptions C01_source_compute_attractors_symbolic.
 Print Assumptions C01_filter_exact.
 Print Assumptions C01_filter_exact_seeds_only.
 Print Assumptions C01_check_seeds_ok.
